@@ -255,9 +255,15 @@ impl Scenario for C11 {
                     1 => (addr_xdr(&iw.sc(&iw.users[2])), true, Some(2)),
                     _ => (vec![9, 9, 9], false, None),
                 };
+                // announced metadata: short for the minter-less request, longer than one ABI word otherwise
+                let (rname, rsym): (Vec<u8>, Vec<u8>) = if *minter == 0 {
+                    (b"Remote".to_vec(), b"RMT".to_vec())
+                } else {
+                    ("Remote token with a name longer than a word é".as_bytes().to_vec(), b"RMT-SYMBOL-LONGER-THAN-32-BYTES-XX".to_vec())
+                };
                 let payload = abi_hub(&RHub::ReceiveFromHub {
                     chain: X.as_bytes().to_vec(),
-                    msg: RMsg::Deploy { token_id: tid, name: b"Remote".to_vec(), symbol: b"RMT".to_vec(), decimals: 6, minter: mbytes },
+                    msg: RMsg::Deploy { token_id: tid, name: rname.clone(), symbol: rsym.clone(), decimals: 6, minter: mbytes },
                 });
                 let mid = format!("rd-{}-{}", id, minter);
                 let pre = w.snap();
@@ -276,8 +282,8 @@ impl Scenario for C11 {
                         m.reg.insert(tid, TokenRec {
                             native: true,
                             address: iw.token_address_of(&tid),
-                            name: b"Remote".to_vec(),
-                            symbol: b"RMT".to_vec(),
+                            name: rname,
+                            symbol: rsym,
                             decimals: 6,
                             minter: m_ix,
                             service_minter: true,
@@ -371,7 +377,7 @@ fn main() {
         let s = C11 { thorough, chains: if thorough { vec!["stellar", "stellar-testnet"] } else { vec!["stellar"] } };
         let mut o = Opts::new(tier, if thorough { 5 } else { 3 });
         o.min_depth = 2;
-        o.rule = "histories over deploy_interchain_token (deployer U0/U1, 2 salts, supply 5/0/-1, minter none / third party / the deployer / the service itself, 5 metadata shapes incl. decimals 255, 256, empty name, empty symbol, multi-byte; authorised by the deployer or by someone else), register_canonical_token (2 assets, repeated), remote deploy messages (fresh id, id of a local token, id of a canonical registration; minter none / valid / undecodable); native seats behind all 7 ids. After every new state: token_address / token_manager_type of all 7 ids vs the write-once model; for every service-deployed token token_id, name, symbol, decimals, owner, deployer balance, is_minter for 5 universe addresses, and an approved inbound transfer executed on a snapshot; ids and addresses from independent keccak/XDR/sha256 derivations".into();
+        o.rule = "histories over deploy_interchain_token (deployer U0/U1, 2 salts, supply 5/0/-1, minter none / third party / the deployer / the service itself, 5 metadata shapes incl. decimals 255, 256, empty name, empty symbol, multi-byte; authorised by the deployer or by someone else), register_canonical_token (2 assets, repeated), remote deploy messages (short metadata / name and symbol longer than 32 bytes; fresh id, id of a local token, id of a canonical registration; minter none / valid / undecodable); native seats behind all 7 ids. After every new state: token_address / token_manager_type of all 7 ids vs the write-once model; for every service-deployed token token_id, name, symbol, decimals, owner, deployer balance, is_minter for 5 universe addresses, and an approved inbound transfer executed on a snapshot; ids and addresses from independent keccak/XDR/sha256 derivations".into();
         (s, o)
     });
 }
